@@ -454,3 +454,26 @@ def check_strength(rep, rule, key, pid, prog, fn, enum_path, variant, need_a, ne
     where = [gs["host"].block_line(b) for b, d in gs["deciders"] if coarse_condition(d) in new]
     rep.check(not new, rule, key + ":unconditional", "no new value test decides whether the gate runs (%d structural deciders)" % len(gs["deciders"]),
               "the gate is now skipped depending on %s (line %s): a success return is reachable without the comparison" % (new, where), site=gs["host"].loc())
+
+
+def check_zip_lengths(rep, rule, prog, fn, done=None):
+    """`a.iter().zip(b)` stops at the shorter side.  In a validation function a comparison loop driven by `zip` silently
+    skips the surplus of the longer side, so it must be accompanied by a comparison of the two lengths (or of a length with
+    a bound) in the same function.  No zip, no obligation."""
+    if done is not None:
+        if fn.id in done:
+            return
+        done.add(fn.id)
+    bodies = [fn] + [prog.fns[c] for c in prog.closures_in(fn.id)]
+    zips = [(g, b) for g in bodies for b in g.call_sites(r"Iterator>::zip$|::zip$")]
+    if not zips:
+        return
+    has_len_gate = False
+    for g in bodies:
+        for (bb, kind, a, b, res, line) in comparisons(g):
+            ta, tb = side_tokens(g, a), side_tokens(g, b)
+            if "c:len" in ta and "c:len" in tb and switch_edges_on_local(g, res):
+                has_len_gate = True
+    rep.check(has_len_gate, rule, "zip-has-length-gate:%s" % fn.id.replace("warp_core::", ""), "%d zip site(s), lengths compared" % len(zips),
+              "%s drives a comparison with `zip` (line %s) but never compares the two lengths: entries beyond the shorter sequence are accepted unchecked" % (
+                  fn.name, [g.block_line(b) for g, b in zips][:2]), site=fn.loc())
